@@ -5466,29 +5466,52 @@ func (a *Agent) forwardShellClientData(streamID uint64, nextHop identity.AgentID
 			return // Adapter closed
 		}
 
-		// Encrypt data before sending
-		encryptedData, err := sessionKey.Encrypt(data)
-		if err != nil {
-			a.logger.Error("failed to encrypt shell client data",
-				logging.KeyStreamID, streamID,
-				logging.KeyError, err)
-			adapter.Close()
-			return
-		}
+		// A sealed message must fit into one frame (the remote side decrypts frame by
+		// frame): split oversized stdin messages into several stdin messages.
+		for _, msg := range splitShellMessage(data) {
+			// Encrypt data before sending
+			encryptedData, err := sessionKey.Encrypt(msg)
+			if err != nil {
+				a.logger.Error("failed to encrypt shell client data",
+					logging.KeyStreamID, streamID,
+					logging.KeyError, err)
+				adapter.Close()
+				return
+			}
 
-		frame := &protocol.Frame{
-			Type:     protocol.FrameStreamData,
-			StreamID: streamID,
-			Payload:  encryptedData,
-		}
-		if err := a.peerMgr.SendToPeer(nextHop, frame); err != nil {
-			a.logger.Debug("shell client send error",
-				logging.KeyStreamID, streamID,
-				logging.KeyError, err)
-			adapter.Close()
-			return
+			frame := &protocol.Frame{
+				Type:     protocol.FrameStreamData,
+				StreamID: streamID,
+				Payload:  encryptedData,
+			}
+			if err := a.peerMgr.SendToPeer(nextHop, frame); err != nil {
+				a.logger.Debug("shell client send error",
+					logging.KeyStreamID, streamID,
+					logging.KeyError, err)
+				adapter.Close()
+				return
+			}
 		}
 	}
+}
+
+// splitShellMessage returns msg unchanged when its sealed form fits into one frame;
+// a larger stdin message is split into several stdin messages.
+func splitShellMessage(msg []byte) [][]byte {
+	const maxMsg = protocol.MaxPayloadSize - crypto.EncryptionOverhead
+	if len(msg) <= maxMsg || msg[0] != shell.MsgStdin {
+		return [][]byte{msg}
+	}
+	var out [][]byte
+	for payload := msg[1:]; len(payload) > 0; {
+		n := len(payload)
+		if n > maxMsg-1 {
+			n = maxMsg - 1
+		}
+		out = append(out, shell.EncodeStdin(payload[:n]))
+		payload = payload[n:]
+	}
+	return out
 }
 
 // cleanupShellClientStream cleans up a shell client stream.
